@@ -50,6 +50,10 @@ def gen_history(r: random.Random) -> list[str]:
     in_txn = False
     for _ in range(r.randint(5, 12)):
         x = r.random()
+        if r.random() < 0.12:
+            # statements that change no data or metadata themselves
+            h.append(r.choice([f"SET hv = {r.randint(0, 9)}", "ALTER TABLE T1 SET TAG cost = 'x'", "UNSET hv", "SELECT COUNT(*) FROM T1"]))
+            continue
         if in_txn:
             if x < 0.3:
                 h.append(f"INSERT INTO T1 (ID, S) VALUES ({r.randint(100, 999)}, 'tx')")
@@ -112,6 +116,13 @@ def gen_cases(tier: str, seed: int):
     # two fixed shapes on every run: the process ends (in every exit mode / at every kill point) inside an open transaction
     # that changed rows and metadata; once with the connection used as a context manager
     yield {"kind": "two_sessions"}
+    for second in ("insert_more", "new_table"):
+        for keep in ("exception-kept", "connection-kept", "nothing-kept"):
+            yield {"kind": "two_blocks", "second": second, "keep": keep}
+    # a comment that is rolled back, followed by statements answered with the no-op status
+    rb = ["CREATE TABLE T1 (ID INT, S VARCHAR(10)) COMMENT = 'first'", "INSERT INTO T1 VALUES (1, 'a')", "BEGIN", "COMMENT ON TABLE T1 IS 'never committed'",
+          "ALTER TABLE T1 SET COMMENT = 'never committed either'", "ROLLBACK", "SET hv = 1", "ALTER TABLE T1 SET TAG cost = 'x'", "INSERT INTO T1 VALUES (2, 'b')"]
+    yield {"kind": "history", "history": rb, "stride": 3 if tier == "quick" else 1, "offset": 0, "with_conn": False}
     open_txn = ["CREATE TABLE T1 (ID INT, S VARCHAR(10)) COMMENT = 'first'", "INSERT INTO T1 VALUES (1, 'a'), (2, 'b')",
                 "CREATE TABLE T2 (ID INT, NAME VARCHAR(20)) COMMENT = 'all orders'", "INSERT INTO T2 VALUES (1, 'x')", "BEGIN",
                 "UPDATE T1 SET S = 'moved' WHERE ID = 1", "INSERT INTO T1 (ID, S) VALUES (500, 'tx')", "COMMENT ON TABLE T2 IS 'in txn'",
@@ -323,6 +334,8 @@ def run_case(case: dict, env: core.Env) -> None:
         return _in_memory(case, env)
     if case["kind"] == "two_sessions":
         return _two_sessions(case, env)
+    if case["kind"] == "two_blocks":
+        return _two_blocks(case, env)
     history = case["history"]
     base = tempfile.mkdtemp(prefix="fsverif-c18-")
     try:
@@ -462,6 +475,72 @@ def _child_two_sessions(case_dir: str, db_dir: str, order: list, mode: str) -> N
             os.fsync(f.fileno())
         if mode == "os_exit":
             os._exit(4)
+
+
+def _child_two_blocks(case_dir: str, db_dir: str, second: str, keep: str) -> None:
+    """One process, two patch() blocks on the same path: the first commits and is left by an exception, the second commits more."""
+    import snowflake.connector
+
+    import fakesnow
+
+    kept: list = []
+    try:
+        with fakesnow.patch(db_path=db_dir):
+            conn = snowflake.connector.connect(database="db1", schema="s1")
+            cur = conn.cursor()
+            cur.execute("CREATE TABLE BATCHES (ID INT, S VARCHAR(10)) COMMENT = 'batches'")
+            cur.execute("INSERT INTO BATCHES VALUES (1, 'first')")
+            if keep == "connection-kept":
+                kept.append(conn)
+            raise RuntimeError("the first block fails after committing")
+    except RuntimeError as e:
+        if keep == "exception-kept":
+            kept.append(e)  # the traceback keeps the block's frame (and so its objects) alive
+    with fakesnow.patch(db_path=db_dir):
+        conn2 = snowflake.connector.connect(database="db1", schema="s1")
+        cur2 = conn2.cursor()
+        cur2.execute("INSERT INTO BATCHES VALUES (2, 'second')")
+        if second == "new_table":
+            cur2.execute("CREATE TABLE AUDIT (ID INT, NOTE VARCHAR(5)) COMMENT = 'audit'")
+            cur2.execute("INSERT INTO AUDIT VALUES (1, 'ok')")
+    with open(os.path.join(case_dir, "done"), "w") as f:
+        f.write("done")
+    # the process ends normally, with whatever it kept still referenced
+
+
+def _two_blocks(case: dict, env: core.Env) -> None:
+    base = tempfile.mkdtemp(prefix="fsverif-c18b-")
+    try:
+        os.makedirs(os.path.join(base, "db"))
+        how, code = _fork(_child_two_blocks, base, os.path.join(base, "db"), case["second"], case["keep"])
+        env.count("fault_runs")
+        if how == "timeout":
+            raise core.Inconclusive("two-block watchdog")
+        if (how, code) != ("exit", 0) or not os.path.exists(os.path.join(base, "done")):
+            err = ""
+            try:
+                err = open(os.path.join(base, "child_error.txt")).read()[-400:]
+            except OSError:
+                pass
+            env.witness(f"C18/two-blocks/child-failed/{case['keep']}", f"{how} {code}: {err}")
+            return
+        how2, code2 = _fork(_child_recover, base, os.path.join(base, "db"), False)
+        env.count("cmp_reopen_ok")
+        if (how2, code2) != ("exit", 0):
+            env.witness("C18/reopen-failed/two-blocks", f"recovery child {how2} {code2}")
+            return
+        rec = json.load(open(os.path.join(base, "recovered.json")))
+        env.count("cmp_recovered_state")
+        rows = rec["state"]["rows"]
+        got_b = sorted(rows.get("DB1.S1.BATCHES", {}))
+        want_b = ["(1, 'first')", "(2, 'second')"]
+        if got_b != want_b:
+            env.witness(f"C18/two-blocks/committed-rows-lost/{case['keep']}", f"a later process finds BATCHES = {got_b} expected {want_b}")
+        if case["second"] == "new_table" and sorted(rows.get("DB1.S1.AUDIT", {})) != ["(1, 'ok')"]:
+            env.witness(f"C18/two-blocks/committed-table-lost/{case['keep']}", f"a later process finds AUDIT = {rows.get('DB1.S1.AUDIT')}")
+        env.nontrivial(("two_blocks", case["second"], case["keep"]))
+    finally:
+        shutil.rmtree(base, ignore_errors=True)
 
 
 def _two_sessions(case: dict, env: core.Env) -> None:
